@@ -1,4 +1,5 @@
 """C15 — built-in functions and constants agree with their mathematical definitions."""
+from common import with_alarm, Timeout
 import cmath, math, os, re
 from fractions import Fraction
 import gradegen as GG
@@ -248,10 +249,59 @@ def part_domain(ctx):
                 ctx.disagree('argument validation differs from the decorator model', case, got, mg)
 
 
+def part_disturbed(ctx):
+    """out-of-domain arguments must keep raising (never nan / a warning) whatever the library evaluated before in the same process: calls that fail
+    inside comparisons, shape mismatches, overflow, division by zero ... are run first, then the domain probes again; numpy's error state is compared"""
+    import numpy as np
+    from mitxgraders import FormulaGrader, MatrixGrader, NumericalGrader, RealVectors, RealMatrices
+    rng = ctx.rng
+    base_err = dict(np.geterr())
+    disturbers = [
+        lambda: FormulaGrader(answers='3*v', variables=['v'], sample_from={'v': RealVectors(shape=3)})(None, '3*v*v'),
+        lambda: FormulaGrader(answers='v', variables=['v'], sample_from={'v': RealVectors(shape=2)})(None, '1'),
+        lambda: FormulaGrader(answers='A', variables=['A'], sample_from={'A': RealMatrices(shape=[2, 2])}, max_array_dim=2)(None, 'A*[1,2,3]'),
+        lambda: MatrixGrader(answers='[1,2]')(None, '[1,2,3]'),
+        lambda: NumericalGrader(answers='1')(None, '1/0'),
+        lambda: NumericalGrader(answers='1')(None, 'exp(1000)'),
+        lambda: NumericalGrader(answers='1')(None, 'arccosh(0.5)'),
+        lambda: FormulaGrader(answers='x', variables=['x'], tolerance='1%')(None, 'x+[1,2]'),
+        lambda: FormulaGrader(answers='[x,1]', variables=['x'], max_array_dim=1)(None, 'x'),
+        lambda: NumericalGrader(answers='infty', allow_inf=True) if False else NumericalGrader(answers='1')(None, '0^-1'),
+    ]
+    probes = [('arccosh(0.5)', False), ('arcsec(0.5)', False), ('arccsc(0.5)', False), ('arccoth(0.5)', False), ('arcsech(2)', False), ('ln(0)', False),
+              ('cot(0)', False), ('exp(1000)', False), ('0^-1', False), ('sqrt(-4)', True), ('arcsin(2)', True), ('exp(-750)', True), ('arccosh(2)', True)]
+    for it in range(ctx.scale(30, 300)):
+        di = rng.randrange(len(disturbers))
+        try:
+            with_alarm(disturbers[di], 20)
+        except BaseException as e:
+            if isinstance(e, Timeout):
+                ctx.violation('a grader call did not terminate', {'part': 'disturbed', 'disturber': di}); continue
+        now = dict(np.geterr())
+        if now != base_err:
+            ctx.violation('numpy floating-point error handling was left changed by a library call: %r -> %r' % (base_err, now), {'part': 'disturbed', 'disturber': di}, impl=now, expected=base_err)
+            np.seterr(**base_err)
+        for expr, in_domain in rng.sample(probes, 5):
+            k, v = D.run_impl(lambda: ev(expr))
+            ctx.contract_checks += 1
+            case = {'part': 'disturbed', 'disturber': di, 'expr': expr}
+            if in_domain:
+                bad = k != 'out' or (isinstance(v, (float, complex)) and (cmath.isnan(v) if isinstance(v, complex) else math.isnan(v)))
+                if bad:
+                    ctx.violation('in-domain %s no longer evaluates after another library call' % expr, case, impl=v)
+            else:
+                if k == 'out':
+                    ctx.violation('out-of-domain %s returned %r instead of a student-facing error after another library call' % (expr, v), case, impl=repr(v))
+                elif v[0] is not True:
+                    ctx.violation('out-of-domain %s raised a non-library exception' % expr, case, impl=v)
+        ctx.case({'disturber': di}, nontrivial_key=('dist', it), kind='disturbed')
+
+
 def run(ctx):
     part_values(ctx)
     part_special(ctx)
     part_domain(ctx)
+    part_disturbed(ctx)
 
 
 def search(ctx):
